@@ -47,7 +47,7 @@ class PyRaise(Exception):
 
 
 class Env:
-    __slots__ = ('vars', 'parent', 'glob', 'func')
+    __slots__ = ('vars', 'parent', 'glob', 'func', 'yielded')
 
     def __init__(self, vars_, parent, glob, func=None):
         self.vars = vars_
@@ -2057,6 +2057,9 @@ class Interp:
             it = v.cls.lookup('__iter__')
             if it is not _MISSING:
                 return self.iterate(self.call(it, [v], {}))
+        if type(v).__name__ in ('callable_iterator', 'list_iterator', 'tuple_iterator', 'str_iterator', 'map', 'filter', 'zip'):
+            # a native iterator over native values (re.finditer on a concrete string, ...): its items, natively
+            return list(v)
         raise Unsupported('iteration over %r' % (v,))
 
     # comprehensions ------------------------------------------------------------
@@ -2344,14 +2347,43 @@ class Interp:
         self.cur_func.append(fn)
         if self.cur_func and len(self.cur_func) > 1:
             self.inlined.add((self.relpath(fn.module), fn.qualname))
+        gen = self._is_generator(fn)
+        if gen:
+            env.yielded = []
         try:
             self.exec_block(fn.node.body, env)
-            return None
+            return _Iter(env.yielded) if gen else None
         except ReturnEx as r:
-            return r.value
+            return _Iter(env.yielded) if gen else r.value
         finally:
             self.cur_func.pop()
             self.call_depth -= 1
+
+    def _is_generator(self, fn):
+        """a generator function is run to its end at the call and its values handed out as a finished sequence (eager): exact
+        for a generator that terminates and whose consumer does not interleave effects with it"""
+        g = getattr(fn, '_is_gen', None)
+        if g is None:
+            def walk(n):
+                for ch in ast.iter_child_nodes(n):
+                    if isinstance(ch, (ast.FunctionDef, ast.AsyncFunctionDef, ast.Lambda, ast.ClassDef)):
+                        continue
+                    if isinstance(ch, (ast.Yield, ast.YieldFrom)):
+                        return True
+                    if walk(ch):
+                        return True
+                return False
+            g = fn._is_gen = (not isinstance(fn.node, ast.Lambda)) and walk(fn.node)
+        return g
+
+    def ex_Yield(self, node, env):
+        e = env
+        while e is not None and not hasattr(e, 'yielded'):
+            e = getattr(e, 'parent', None)
+        if e is None:
+            raise Unsupported('yield outside a generator function called directly')
+        e.yielded.append(self.eval(node.value, env) if node.value is not None else None)
+        return None
 
     def modular_contract(self, fn):
         if not self.contracts:
